@@ -407,11 +407,17 @@ def capacity(ctx, w, m, construct, paths):
         effs = [e for e in effects(w, p) if e.ok]
         grow = [e for e in effs if e.kind == 'L_SET' and not any(x.kind == 'L_DEL' for x in effs)]
         evict = [e for e in effs if e.kind == 'L_SET' and any(x.kind == 'L_DEL' for x in effs)]
-        tests = [(o, canon_size_lt_cap(w, o.val)) for o in p.ops if o.kind == 'test']
-        tests = [(o, c) for o, c in tests if c is not None]
+        # what each test *established* on this path: the condition itself when it was true, its negation when false
+        tests = []
+        for o in p.ops:
+            if o.kind == 'test':
+                v = o.val if o.info else ast.UnaryOp(op=ast.Not(), operand=o.val)
+                c = canon_size_lt_cap(w, v)
+                if c is not None:
+                    tests.append((o, c))
         for e in grow:
             n += 1
-            ok = any(o.seq < e.op.seq and ((c == 'lt' and o.info is True)) for o, c in tests)
+            ok = any(o.seq < e.op.seq and c == 'lt' for o, c in tests)
             det = ', '.join('%s -> %s [%s]' % (w.text(o.val), o.info, c) for o, c in tests) or 'no size/capacity test on the path'
             ctx.ob('T7', construct, 'a new key is added without eviction only after `size < max_size` was found true',
                    ok, loc=loc_of(m, e.op), detail=det, path=p.describe() if not ok else None)
